@@ -2,8 +2,12 @@ package props
 
 import (
 	"fmt"
+	"io"
+	"net"
 	"net/http"
+	"os"
 	"strings"
+	"syscall"
 
 	"github.com/vicanso/pike/config"
 	"github.com/vicanso/pike/server"
@@ -211,13 +215,7 @@ func init() {
 			st2.Bounds = "7 methods x 7 status codes x 14 header sets, 2 identical requests each"
 			cfg := env.BasicConfig(config.CacheConfig{})
 			e := getEnv(cfg, "basic")
-			hs := []c03Case{
-				{CC: []string{"max-age=10"}}, {CC: []string{"s-maxage=10"}}, {CC: []string{"public, max-age=10"}},
-				{CC: []string{"max-age=10"}, SetCookie: []string{"a=1"}}, {CC: []string{"max-age=10"}, SetCookie: []string{"", "b=2"}},
-				{CC: []string{"private, max-age=10"}}, {CC: []string{"Private, max-age=10"}}, {CC: []string{"max-age=10", "NO-STORE"}},
-				{CC: []string{"max-age=10, no-cache"}}, {CC: []string{"max-age=0"}}, {CC: []string{"s-maxage=0, max-age=10"}},
-				{CC: []string{"max-age=10"}, Age: []string{"10"}}, {CC: []string{"max-age=10"}, Age: []string{"9"}}, {Extra: http.Header{"Expires": {"Thu, 01 Dec 2099 16:00:00 GMT"}}},
-			}
+			hs := c03ChainHeaders
 			var n int64
 			for _, m := range []string{"GET", "HEAD", "POST", "PUT", "PATCH", "DELETE", "OPTIONS"} {
 				for _, code := range []int{200, 201, 204, 301, 404, 500, 503} {
@@ -274,7 +272,105 @@ func init() {
 			}
 			st2.NOutcomes = int(st2.Execs)
 		}
+		// level 3: a location that adds its own Cache-Control to responses must not hide what the origin said
+		if c.Want("chain-location-headers") {
+			st3 := c.Stat("chain-location-headers", "enumeration")
+			st3.Bounds = "location respHeaders in {Cache-Control:max-age=60, X-Added:1 + Cache-Control:public,s-maxage=30} x GET/HEAD x 14 origin header sets, 2 identical requests each"
+			var n int64
+			for ci, rh := range [][]string{{"Cache-Control:max-age=60"}, {"X-Added:1", "Cache-Control:public, s-maxage=30"}} {
+				cfg := env.BasicConfig(config.CacheConfig{})
+				cfg.Locations[0].RespHeaders = rh
+				e := getEnv(cfg, fmt.Sprintf("c03-loc%d", ci))
+				for _, m := range []string{"GET", "HEAD"} {
+					for hi, k := range c03ChainHeaders {
+						n++
+						if !c.Mine(n) {
+							continue
+						}
+						freshCaches(cfg)
+						vtime.Set(vtime.Base)
+						k := k
+						e.Respond = func(oc *env.OriginCall) env.OriginResp {
+							h := k.header()
+							h.Set("Content-Type", "text/plain")
+							return env.OriginResp{Status: 200, Header: h, Body: env.SelfBody(oc, "p")}
+						}
+						e.Events()
+						e.Do(env.Req{Method: m, URI: "/c", Rid: "r1"})
+						r2 := e.Do(env.Req{Method: m, URI: "/c", Rid: "r2"})
+						an := analyze(e.Events())
+						st3.Execs++
+						st3.States += 2
+						st3.Transitions += 2
+						st3.Nontrivial++
+						kase := map[string]interface{}{"method": m, "location_resp_headers": rh, "headers": k, "index": hi}
+						cl := oracle.Classify(k.header())
+						explicit := cl.Forbidden && (strings.HasPrefix(cl.Why, "Set-Cookie") || strings.HasPrefix(cl.Why, "directive "))
+						if r2.XStatus == "hit" && explicit {
+							c.Violation("chain-location-headers", "stored-unshareable", fmt.Sprintf("%s with location response headers %v: the origin's response (%v) was stored although %s", m, rh, k, cl.Why), nil, kase, nil)
+						}
+						if v := an.labelTruth(); v != nil {
+							c.Violation("chain-location-headers", v.Sig, v.Msg, nil, kase, nil)
+						}
+					}
+				}
+			}
+			st3.NOutcomes = int(st3.Execs)
+		}
+		// level 4: an origin connection that closes before any response byte — still exactly one contact per request
+		if c.Want("chain-conn-closed") {
+			st4 := c.Stat("chain-conn-closed", "enumeration")
+			st4.Bounds = "7 methods x {EOF, connection reset, refused} on the first origin call x {with, without body}"
+			cfg := env.BasicConfig(config.CacheConfig{})
+			e := getEnv(cfg, "basic")
+			errs := map[string]error{
+				"EOF":     io.EOF,
+				"reset":   &net.OpError{Op: "read", Net: "tcp", Err: os.NewSyscallError("read", syscall.ECONNRESET)},
+				"refused": &net.OpError{Op: "dial", Net: "tcp", Err: os.NewSyscallError("connect", syscall.ECONNREFUSED)},
+			}
+			var n int64
+			for _, m := range []string{"GET", "HEAD", "POST", "PUT", "PATCH", "DELETE", "OPTIONS"} {
+				for _, en := range []string{"EOF", "reset", "refused"} {
+					for _, body := range [][]byte{nil, []byte("x=1")} {
+						n++
+						if !c.Mine(n) {
+							continue
+						}
+						freshCaches(cfg)
+						vtime.Set(vtime.Base)
+						calls := 0
+						e.Respond = func(oc *env.OriginCall) env.OriginResp {
+							calls++
+							if calls == 1 {
+								return env.OriginResp{Err: env.ProxyError(errs[en])}
+							}
+							return env.Uncacheable(oc, "p")
+						}
+						e.Events()
+						r := e.Do(env.Req{Method: m, URI: "/c", Rid: "r1", Body: body})
+						an := analyze(e.Events())
+						st4.Execs++
+						st4.States++
+						st4.Transitions++
+						st4.Nontrivial++
+						kase := map[string]interface{}{"method": m, "origin_error": en, "body": string(body)}
+						if got := len(an.Reqs["r1"].Calls); got != 1 {
+							c.Violation("chain-conn-closed", "request-not-forwarded-exactly-once", fmt.Sprintf("%s whose origin connection ended with %s was forwarded %d times (client saw %d %s)", m, en, got, r.Status, r.XStatus), nil, kase, nil)
+						}
+					}
+				}
+			}
+			st4.NOutcomes = int(st4.Execs)
+		}
 	})
+}
+
+var c03ChainHeaders = []c03Case{
+	{CC: []string{"max-age=10"}}, {CC: []string{"s-maxage=10"}}, {CC: []string{"public, max-age=10"}},
+	{CC: []string{"max-age=10"}, SetCookie: []string{"a=1"}}, {CC: []string{"max-age=10"}, SetCookie: []string{"", "b=2"}},
+	{CC: []string{"private, max-age=10"}}, {CC: []string{"Private, max-age=10"}}, {CC: []string{"max-age=10", "NO-STORE"}},
+	{CC: []string{"max-age=10, no-cache"}}, {CC: []string{"max-age=0"}}, {CC: []string{"s-maxage=0, max-age=10"}},
+	{CC: []string{"max-age=10"}, Age: []string{"10"}}, {CC: []string{"max-age=10"}, Age: []string{"9"}}, {Extra: http.Header{"Expires": {"Thu, 01 Dec 2099 16:00:00 GMT"}}},
 }
 
 func allLower(vs []string) bool {
